@@ -65,10 +65,12 @@ namespace nmtools::view
         template <typename size_type>
         constexpr auto operator()(size_type index) const
         {
+            // convert position and step to the element type before they meet: the position is unsigned, so `index * step`
+            // with a negative step wrapped around before it was added to start
             if constexpr (is_none_v<step_t>)
-                return static_cast<element_type>(start) + index;
+                return static_cast<element_type>(start) + static_cast<element_type>(index);
             else
-                return static_cast<element_type>(start) + (index * step);
+                return static_cast<element_type>(start) + (static_cast<element_type>(index) * static_cast<element_type>(step));
         } // operator()
     }; // arange_t
     
